@@ -1,5 +1,6 @@
 (** C06 — Farm base rewards: pro rata in stake and time, never retroactive or over-issued. *)
 From MX Require Import Base.Prelude Gen.Params Model.Farm Proofs.FarmInv Proofs.FarmSolv Proofs.FarmRps.
+From MX Require Model.Staking Proofs.StakingProofs.
 
 (** The index only grows, and only by floor(base_share * DSC / supply) for the blocks elapsed while
     production is enabled (base_share = rate * blocks - boosted cut); nothing accrues with zero supply. *)
@@ -63,6 +64,25 @@ Theorem C06_admin_settles_first : forall f blk c f' o,
   (fstep f (FStart blk c) = Ok (f', o) -> f_rps f' = f_rps f /\ f_last f' = blk /\ f_produce f' = true).
 Proof. exact admin_settles_first. Qed.
 Print Assumptions C06_admin_settles_first.
+
+
+(** the staking farm (farm-staking): one settlement accrues min(rate*blocks, APR bound*blocks, remaining capacity),
+    moves the boosted share aside and grows the index by exactly floor((accrual - cut) * DSC / supply);
+    nothing at all happens for a block that was already settled (no retroactive accrual) *)
+Theorem C06_staking_settle : forall s blk s', Staking.settle s blk = Ok s' -> StakingProofs.StkInv s ->
+  (blk <= Staking.s_last s -> s' = s) /\
+  (Staking.s_last s < blk ->
+     let unb := if Staking.s_produce s then Staking.s_rate s * (blk - Staking.s_last s) else 0 in
+     let total := Z.min (Z.min unb (Staking.apr_per_block s * (blk - Staking.s_last s))) (Staking.s_cap s - Staking.s_acc s) in
+     let cut := Staking.boosted_cut s total in
+     Staking.s_last s' = blk /\ Staking.s_acc s' = Staking.s_acc s + total /\
+     Staking.s_reserve s' = Staking.s_reserve s + total /\
+     Staking.s_pool s' = Staking.s_pool s + cut /\ 0 <= cut <= total /\
+     (Staking.s_supply s = 0 -> Staking.s_rps s' = Staking.s_rps s) /\
+     (0 < Staking.s_supply s ->
+        StakingProofs.is_floor_s (Staking.s_rps s' - Staking.s_rps s) ((total - cut) * Staking.s_dsc s) (Staking.s_supply s))).
+Proof. exact StakingProofs.settle_index_char. Qed.
+Print Assumptions C06_staking_settle.
 
 Example C06_nonvacuous :
   let f0 := frun (init_farm 1000000000000 false)
